@@ -561,7 +561,9 @@ def cases_for(prop, tier, seed, pools, toks, ck):
             cases += gen.gen_edit_cases(lang, rnd, pools[lang], toks, per(6, 150), per_pos=per(1, 3))
     elif prop == "C13":
         for lang in L:
-            cases += gen.gen_whole_pair_cases(lang, rnd, pools[lang], toks, per(60, 1500))
+            echo = gen.compound_echo_titles(rnd, pools[lang], per(8, 60))
+            more_toks(ck, toks, [(lang, t) for t in echo], "pre_c13")
+            cases += gen.gen_whole_pair_cases(lang, rnd, pools[lang], toks, per(60, 1500), extra=echo)
     elif prop == "C14":
         for lang in L:
             cases += gen.gen_split_join_cases(lang, rnd, pools[lang], toks, per(20, 500))
@@ -579,16 +581,20 @@ def cases_for(prop, tier, seed, pools, toks, ck):
         for lang in L:
             cases += gen.gen_store_relations("C06", lang, rnd, pools[lang], toks, per(4, 120))
             cases += gen.gen_store_relations("C06", lang, rnd, pools[lang], toks, per(1, 30), big=True)
+            cases += gen.gen_family_cases("C06", lang, rnd, per(2, 40))
         cases += gen.gen_huge_store_cases("C06", rnd.choice(L), rnd, pools["en"], per(1, 6))
     elif prop == "C07":
         for lang in L:
             cases += gen.gen_store_relations("C07", lang, rnd, pools[lang], toks, per(4, 120))
             cases += gen.gen_store_relations("C07", lang, rnd, pools[lang], toks, per(1, 20), big=True)
             cases += gen.gen_vocab_cases("C07", lang, rnd, pools[lang], toks, per(120, 1500))
+            cases += gen.gen_family_cases("C07", lang, rnd, per(6, 100))
         cases += gen.gen_huge_store_cases("C07", rnd.choice(L), rnd, pools["en"], per(1, 6))
     elif prop in ("C10", "C12"):
         for lang in L:
             cases += gen.gen_histories(prop, lang, rnd, pools[lang], toks, per(12, 400), length=per(14, 24))
+            if prop == "C10":
+                cases += gen.gen_family_cases("C10", lang, rnd, per(3, 60))
         # the same statement through the top-level API (lib.rs), with a stand-alone store in lock-step
         cases += gen.gen_registry_cases(rnd, per(20, 600), pools, toks, length=per(30, 50))
     elif prop == "C01":
@@ -653,6 +659,11 @@ def run_property(prop, tier, seed):
         m2 = run_cases(prop + "x", more, ck, sh, stage_budget=600)
         merge_into(merged, m2)
         merged["escalated"] = True
+    if prop == "C06":
+        # the bounded selection itself (utils/limitsort.rs), driven directly: random inputs and input lengths at exact
+        # multiples of the limit, stable and unstable; judged against LimitSort.tla's IsTopK (TV_Comp)
+        m2 = run_cases(prop + "c", gen.gen_lsort_cases(random.Random(seed * 31 + 6), tier), ck, None, spec="TV_Comp")
+        merge_into(merged, m2)
     if prop in ("C03", "C04"):
         # specification -> implementation at word level: every word pair of the bounded model with every stem
         gc, n = tlc_generated_wm_cases(tier)
